@@ -76,6 +76,14 @@ let () =
       Array.iter (fun v ->
         Array.iter (fun fam ->
           for k = 0 to 24 do fin emit (Printf.sprintf "c01.corpus %s %s any %d 0 -1 %d" fam v seed k) done;
+          (* the first operation(s) of every kind of iterator drive: each lazy iterator meets a failing reader *)
+          for j = 0 to 47 do
+            fin emit (Printf.sprintf "c01.corpus %s %s any %d 0 -1 s%d+%d" fam v seed j (j mod 3))
+          done;
+          for _ = 1 to n do
+            fin emit (Printf.sprintf "c01.corpus %s %s any %d %d -1 s%d+%d" fam v (rand_int r 1000000) (rand_int r 2)
+                        (rand_int r 100000) (rand_int r 6))
+          done;
           for _ = 1 to n do
             fin emit (Printf.sprintf "c01.corpus %s %s any %d %d -1 %d" fam v (rand_int r 1000000) (rand_int r 3) (rand_int r 20000))
           done) [| "dwarf+c"; "cfi+c"; "misc" |]) vs);
